@@ -238,6 +238,16 @@ def generate(plan) -> None:
             d["caller"] = d["id"]  # every call its own task: they queue up concurrently
             d["timeout"] = r.choice([1.0, 3.5, 7.5, 20.0, 30.0])
 
+    # transport: a serial dongle, or (send/episode/burst) a ramses_esp gateway behind an MQTT broker.  Drawn from its own stream.
+    rt = plan.rng("gen/tr")
+    if sc in ("send", "episode", "burst") and rt.random() < 0.2:
+        k["tr"] = "mqtt"
+        k["fw"] = "evofw3"
+        k["split_rate"] = 0.0
+        # limits=False: the token bucket is made bottomless (the C08 count/back-off oracles apply); True: the real bucket,
+        # found at a drawn level (a write that finds < 1 token is dropped by design: C07/C09 still apply, C08's counts do not)
+        k["limits"] = rt.random() < 0.3
+        k["mqtt_tokens"] = rt.choice([160, 160, 40, 8, 2, 0.5])
     horizon = max((d["at"] for d in ops), default=0) + 5.0
     if not fault_free and sc in ("send", "episode", "burst"):
         for _ in range(r.choice([0, 0, 1, 2, 3])):
@@ -545,12 +555,30 @@ class QosSim:
         T._DBG_DISABLE_DUTY_CYCLE_LIMIT = not k("limits", False)
         fw = k("fw", "evofw3")
         T.is_hgi80 = lambda name: fw == "hgi80"
-        self.ser = self.hub.add_port("/dev/sim0", self.gid, fw)
+        self.mqtt = k("tr", "serial") == "mqtt"
         self.hub.echo_policy = self.echo_policy
         self.hub.on_frame = self.on_frame
         self.msgs = []
         self.proto = P.protocol_factory(self.msgs.append, disable_qos=k("disable_qos", False))
-        self.tr = T.PortTransport(self.ser, self.proto, loop=self.loop)
+        if self.mqtt:
+            from ..rf import FakeMqttClient
+
+            FakeMqttClient.instances.clear()
+            T.mqtt.Client = FakeMqttClient
+            self.ser = self.hub.add_mqtt_port("mqtt0", self.gid)
+            self.tr = T.MqttTransport("mqtt://u:p@broker.local:1883", self.proto, loop=self.loop)
+            cl = FakeMqttClient.instances[-1]
+            self.ser.attach(cl)
+            cl.on_connect(cl, None, {}, 0)
+            self.ser.status(b"online")
+            if k("limits", False):
+                self.tr._num_tokens = float(k("mqtt_tokens", 160))
+            else:
+                self.tr._num_tokens = self.tr._max_tokens = 1e9
+            self.ctx.probe("mqtt_transport")
+        else:
+            self.ser = self.hub.add_port("/dev/sim0", self.gid, fw)
+            self.tr = T.PortTransport(self.ser, self.proto, loop=self.loop)
         await self.proto.wait_for_connection_made(timeout=3)
         self.connected = True
         for op in self.ops.values():
@@ -613,22 +641,29 @@ class QosSim:
         if self.hub.quiet:
             return
         self.hub.count("pause" if self._busy() else "pause_idle")
-        self.proto.pause_writing()
+        if self.mqtt:
+            self.ser.status(b"offline")  # the gateway's status topic: the transport itself pauses the protocol
+        else:
+            self.proto.pause_writing()
         self.paused.append((self.now(), None))
 
     def _resume(self):
         self.hub.count("resume")
-        self.proto.resume_writing()
+        if self.mqtt and not self.tr.is_closing():
+            self.ser.status(b"online")
+        else:
+            self.proto.resume_writing()
         if self.paused and self.paused[-1][1] is None:
             self.paused[-1] = (self.paused[-1][0], self.now())
 
     def _arm_write_error(self):
         if self.hub.quiet:
             return
-        self.ser.fail_write = SerialException("simulated write failure")
+        self.ser.fail_write = T.MQTTException("simulated publish failure") if self.mqtt else \
+            SerialException("simulated write failure")
 
     def _read_error(self):
-        if self.hub.quiet or self.tr.is_closing():
+        if self.hub.quiet or self.tr.is_closing() or self.mqtt:
             return
         self.ser.fail_read = SerialException("simulated read failure")
         self.ser.kick()
@@ -641,6 +676,8 @@ class QosSim:
         self.ctx.ev("disconnect", how)
         if how == "close":
             self.tr.close()
+        elif self.mqtt:
+            self.tr._close(exc.TransportError("simulated loss of the broker"))
         else:
             self.tr._abort(SerialException("simulated unplug"))
         for d in self.plan.ops:
@@ -691,6 +728,8 @@ class QosSim:
             if not t.cancelled() and t.exception() is not None:
                 raise t.exception()  # harness error in caller()
         self.t_calls_done = self.now()
+        if self.mqtt and sum(len(o.handoffs) for o in self.ops.values()) > sum(len(o.writes) for o in self.ops.values()):
+            ctx.probe("mqtt_write_discarded_or_pending_at_end")
         ctx.nontrivial = any(v for kf, v in self.hub.fault_counts.items() if not kf.endswith("_idle")) or \
             self.loop.stall_count > 0 or self.loop.tie_count > 0
 
